@@ -393,6 +393,35 @@ def show(v, depth=0):
     return t
 
 
+def canon_guard(g, v):
+    """Branch condition with polarity in canonical form: only `<` and `==` comparisons (operands of `==` ordered),
+    negations folded into the polarity. `a <= b` taken ≡ `b < a` not taken, `a > b` ≡ `b < a`, `a >= b` ≡ not `a < b`."""
+    for _ in range(8):
+        if isinstance(g, tuple) and g and g[0] == "un" and g[1] in ("Not", "!"):
+            g, v = g[2], (not v if isinstance(v, bool) else v)
+            continue
+        if isinstance(g, tuple) and g and g[0] == "cmp" and isinstance(v, bool):
+            op, a, b = g[1], g[2], g[3]
+            if op == "<=":
+                g, v = ("cmp", "<", b, a), not v
+            elif op == ">":
+                g = ("cmp", "<", b, a)
+            elif op == ">=":
+                g, v = ("cmp", "<", a, b), not v
+            elif op == "!=":
+                g, v = ("cmp", "==", a, b), not v
+                continue
+            elif op == "==" and repr(b) < repr(a):
+                g = ("cmp", "==", b, a)
+        break
+    return g, v
+
+
+def cguards(p):
+    """Canonical printable guards of a path: [(text, polarity)]."""
+    return [(show(g2), v2) for g2, v2 in (canon_guard(g, v) for g, v in p.guards)]
+
+
 def contains_call(v, names):
     if isinstance(v, tuple):
         if v and v[0] == "call" and v[1].split("::")[-1] in names:
